@@ -12,11 +12,79 @@ class BudgetExceeded(BaseException):
     """Deterministic step budget exhausted (DESIGN.md 2.3)."""
 
 
+# --------------------------------------------------------------------------------------
+# the stack the code under test gets is the one a plain caller would have: the interpreter's recursion limit as it is
+# after importing the package (the package may raise it for itself - that is part of its behaviour), measured from the
+# caller's frame. The harness raises the limit for its OWN recursive code (models, parser, renderer) and Hypothesis
+# raises it while a test runs; neither may lend the code under test stack it would not have in a user's process.
+# --------------------------------------------------------------------------------------
+def _package_recursion_limit() -> int:
+    import importlib
+
+    for m in ("explorerscript.ssb_converting.ssb_compiler", "explorerscript.ssb_converting.ssb_decompiler",
+              "explorerscript.ssb_script.ssb_converting.ssb_compiler", "explorerscript.ssb_script.ssb_converting.ssb_decompiler"):
+        importlib.import_module(m)
+    return sys.getrecursionlimit()
+
+
+PACKAGE_RECURSION_LIMIT = _package_recursion_limit()
+HARNESS_RECURSION_LIMIT = max(PACKAGE_RECURSION_LIMIT, 20000)
+_cut_limit = [PACKAGE_RECURSION_LIMIT]
+
+
+class cut_stack:
+    """with cut_stack(): <call into the code under test>"""
+
+    def __enter__(self):
+        import threading
+
+        self.old = None
+        if threading.current_thread() is threading.main_thread():
+            depth = 0
+            f = sys._getframe(1)
+            while f is not None:
+                depth += 1
+                f = f.f_back
+            self.old = sys.getrecursionlimit()
+            self.set = _cut_limit[0] + depth
+            sys.setrecursionlimit(self.set)
+        return self
+
+    def __exit__(self, *exc):
+        if self.old is not None:
+            cur = sys.getrecursionlimit()
+            if cur != self.set:
+                # the code under test changed the limit itself during this call: in a user's process that lasts, so it
+                # lasts for the later calls into the code under test here (and only for them)
+                _cut_limit[0] = cur
+            sys.setrecursionlimit(self.old)
+        return False
+
+
+class harness_stack:
+    """with harness_stack(): <deeply recursive code of the harness itself>"""
+
+    def __enter__(self):
+        import threading
+
+        self.old = None
+        if threading.current_thread() is threading.main_thread() and sys.getrecursionlimit() < HARNESS_RECURSION_LIMIT:
+            self.old = sys.getrecursionlimit()
+            sys.setrecursionlimit(HARNESS_RECURSION_LIMIT)
+        return self
+
+    def __exit__(self, *exc):
+        if self.old is not None:
+            sys.setrecursionlimit(self.old)
+        return False
+
+
 def compile_text(text: str, file_name: str = "/nonexistent/main.exps", lookup_paths=None, compiler=None):
     from explorerscript.ssb_converting.ssb_compiler import ExplorerScriptSsbCompiler
 
     c = compiler or ExplorerScriptSsbCompiler(T.PERF_VAR, lookup_paths or [])
-    c.compile(text, file_name)
+    with cut_stack():
+        c.compile(text, file_name)
     return c
 
 
@@ -37,21 +105,24 @@ def decompile(routine_infos, routine_ops, named_coroutines):
     from explorerscript.ssb_converting.ssb_decompiler import ExplorerScriptSsbDecompiler
 
     d = ExplorerScriptSsbDecompiler(routine_infos, routine_ops, named_coroutines, T.PERF_VAR, dungeon_mode_constants())
-    return d.convert()
+    with cut_stack():
+        return d.convert()
 
 
 def decompile_ssbs(routine_infos, routine_ops, named_coroutines, prefix=None):
     from explorerscript.ssb_script.ssb_converting.ssb_decompiler import SsbScriptSsbDecompiler
 
     d = SsbScriptSsbDecompiler(routine_infos, routine_ops, named_coroutines)
-    return d.convert() if prefix is None else d.convert(prefix=prefix)
+    with cut_stack():
+        return d.convert() if prefix is None else d.convert(prefix=prefix)
 
 
 def compile_ssbs(text: str):
     from explorerscript.ssb_script.ssb_converting.ssb_compiler import SsbScriptSsbCompiler
 
     c = SsbScriptSsbCompiler()
-    c.compile(text)
+    with cut_stack():
+        c.compile(text)
     return c
 
 
